@@ -63,13 +63,11 @@ var (
 var ErrSkipBusiness = errors.New("tcc fence: nothing to do for the business method")
 
 func GetFenceHandler() *tccFenceWrapperHandler {
-	if fenceHandler == nil {
-		fenceOnce.Do(func() {
-			fenceHandler = &tccFenceWrapperHandler{
-				tccFenceDao: dao.GetTccFenceStoreDatabaseMapper(),
-			}
-		})
-	}
+	fenceOnce.Do(func() {
+		fenceHandler = &tccFenceWrapperHandler{
+			tccFenceDao: dao.GetTccFenceStoreDatabaseMapper(),
+		}
+	})
 	return fenceHandler
 }
 
